@@ -406,7 +406,7 @@ def execute(env, attr, init, prog, created=False, source=None):
     def real_status():
         e = st['e']; cache = e._session_cache_
         if cache is None or not cache.is_alive: return 'over'
-        return 'deleted' if e._status_ in ('marked_to_delete', 'deleted') else e._status_
+        return 'deleted' if e._status_ in ('marked_to_delete', 'deleted', 'cancelled') else e._status_
     def snap(err, after_flush=False):
         rs = real_status()
         unreadable = rs == 'deleted'      # the value of a deleted object cannot be read through the attribute any more
@@ -472,7 +472,7 @@ def execute(env, attr, init, prog, created=False, source=None):
                 if not more: break
                 prog.extend(more)
             op = prog[idx]
-            if op['op'] in ('call', 'assign') and st['e']._status_ in ('created', 'modified') and not st.get('quiet') \
+            if op['op'] in ('call', 'assign') and st['e']._status_ in ('created', 'modified') and not st.get('quiet') and not st.get('dead') \
                     and any(r_[0] in ('attr', 'obj2') for r_ in refs_of(op)):
                 # taking a value from another attribute / object may have to query the database, and Pony saves the pending changes
                 # before any query: the flush is made explicit (the program stays self-describing, the model sees it)
